@@ -128,6 +128,9 @@ OrderedThenFirst ==
         <<[name |-> "c", q |-> SelQ(<<I(A), I(G)>>, T, None)],
           [name |-> "d", q |-> [SelQ(<<Star>>, C, None) EXCEPT !.order = <<[key |-> <<"a">>, asc |-> FALSE], [key |-> <<"g">>, asc |-> FALSE]>>]]>>]
 
+\* aggregates without GROUP BY in two stages, spelled alike (COUNT(*) over a derived table / a CTE that is itself a COUNT(*))
+AggInner == SelQ(<<Item(Agg("count", <<>>), "a"), Item(Agg("max", <<"g">>), "g")>>, T, CmpE(">", A, LN(1)))
+AggOuter(from, pre) == SelQ(<<Item(Agg("count", <<>>), "k"), Item(Agg("max", pre \o <<"a">>), "top"), Item(Agg("max", pre \o <<"g">>), "g")>>, from, None)
 DualInner == SelQ(<<Item(LN(3), "a"), Item(LN(1), "g"), Item(Col("u"), "us")>>, Dual, None)
 Cases ==
        {[fam |-> "cte", q |-> WithC(Inners[i], o)] : i \in DOMAIN Inners, o \in Outers(C, <<>>) \cup {GroupOuter(C)}}
@@ -145,6 +148,8 @@ Cases ==
   \cup {[fam |-> "derived", q |-> r] : r \in Renamed}
   \cup {[fam |-> "sibling", q |-> UnaliasedOuter(ty)] : ty \in {"left", "right"}}
   \cup {[fam |-> "sibling", q |-> ShadowWith]}
+  \cup {[fam |-> "derived", q |-> AggOuter(Derived(AggInner, "x"), <<"x">>)], [fam |-> "cte", q |-> WithC(AggInner, AggOuter(C, <<>>))],
+        [fam |-> "derived", q |-> AggOuter(Derived(AggOuter(Derived(AggInner, "y"), <<"y">>), "x"), <<"x">>)]}
   \* a CTE / a derived table over dual: one row made by the select list from the document itself
   \cup {[fam |-> "cte", q |-> WithC(DualInner, o)] : o \in Outers(C, <<>>) \cup {GroupOuter(C)}}
   \cup {[fam |-> "derived", q |-> o] : o \in Outers(Derived(DualInner, "x"), <<"x">>)}
